@@ -9,6 +9,7 @@ R6 pod flag forwarded to delegated decoders / readers
 R7 str()-built plain-data forms agree with the field table (order, separators, no trimming)
 R8 guarded memo slots (size memo behind template guessing) are published once, complete
 R9 template dataclasses do not normalise their serialized fields on construction
+R10 array-valued object forms are never truth-tested by encode()
 """
 from __future__ import annotations
 
@@ -746,6 +747,7 @@ def r2(ctx, regs: List[Reg], tmpl):
                             and ap(e.left) == p and eattr in {ap(x) for x in ast.walk(e.comparators[0])
                                                               if isinstance(x, ast.Attribute)}:
                         ok = True
+                eafp = False
                 if not ok:
                     # try/except ValueError fallback is an equivalent guard
                     from ..core import try_contexts, handler_names
@@ -753,8 +755,30 @@ def r2(ctx, regs: List[Reg], tmpl):
                         if tc.section == "body" and any(set(handler_names(h)) & {"ValueError", "Exception", "*"}
                                                         for h in tc.node.handlers):
                             ok = True
+                            eafp = True
                 ctx.ob("C09.R2", f"{f.qual}: {norm(c)} only for member values", ok, ctx.w(f, c),
                        "enum construction from a non-member raises ValueError: unknown wire values must stay ints")
+                if eafp:
+                    # ... equivalent only while construction from a non-member really raises: an enum class with a
+                    # `_missing_` hook maps unknown values onto some member instead (and the raw value is gone)
+                    enum_classes: Dict[str, Tuple[ClassInfo, str]] = {}
+                    for r in regs:
+                        if r.kind == "enum":
+                            enum_classes.setdefault(r.cls.qual, (r.cls, r.key))
+                    for mod in repo.modules.values():
+                        for c2 in calls(mod.tree, into_defs=True):
+                            k2 = _resolve_cls(repo, mod, c2.func)
+                            if k2 is not None and k2.name == "IntEnum" and k2.module.rel == SERMOD and c2.args:
+                                ec = _resolve_cls(repo, mod, c2.args[0])
+                                if ec is not None:
+                                    enum_classes.setdefault(ec.qual, (ec, f"{mod.rel}:{c2.lineno}"))
+                    for ec, used in sorted(enum_classes.values(), key=lambda t: t[0].qual):
+                        hook = repo.lookup_method(ec, "_missing_")
+                        ctx.ob("C09.R2", f"{f.qual}: construction of {ec.name} from a non-member raises (no _missing_ hook)",
+                               hook is None, hook.where if hook is not None else ctx.w(ec.module, ec.node),
+                               f"{f.qual} relies on ValueError to keep unknown values as ints, but "
+                               f"{hook.qual if hook is not None else ''} lets {ec.name}(<unknown>) succeed with a stand-in "
+                               f"member: an unknown wire value of {used} decodes to that member and re-encodes as its value")
     ctx.floor("C09.R2", "enum constructions in IntEnum.decode", nen, 1)
 
 
@@ -1717,6 +1741,98 @@ def r9(ctx):
         ctx.ob("C09.R9", "no template dataclass customises its construction", True, "hippolyzer/lib/base")
 
 
+# ------------------------------------------------------------------------------------------ R10
+
+_NDARRAY_METHODS = ("reshape", "astype", "flatten", "ravel", "view", "transpose", "squeeze", "copy", "swapaxes",
+                    "newbyteorder", "byteswap", "clip")
+
+
+def _numpy_built(f: FuncInfo, e: ast.AST, depth=0) -> bool:
+    """The expression certainly yields a numpy array: an `np.<fn>(...)` result, an ndarray-method chain on one,
+    or a local bound only to such expressions."""
+    if depth > 6:
+        return False
+    if isinstance(e, ast.Call):
+        fn = e.func
+        if isinstance(fn, ast.Attribute) and isinstance(fn.value, ast.Name) and f.module.imports.get(fn.value.id) == "numpy":
+            return fn.attr not in ("isscalar", "ndim", "shape", "size", "array_equal", "allclose", "any", "all")
+        if isinstance(fn, ast.Attribute) and fn.attr in _NDARRAY_METHODS:
+            return _numpy_built(f, fn.value, depth + 1) or fn.attr in ("astype", "reshape", "newbyteorder")
+        return False
+    if isinstance(e, ast.Name):
+        vals = [s_ for s_ in stores(f.node, into_defs=False) if s_.path == e.id]
+        params = {a.arg for a in f.node.args.args}
+        if not vals or e.id in params and not all(s_.kind == "assign" for s_ in vals):
+            return False
+        plain = [s_ for s_ in vals if s_.kind == "assign" and s_.value is not None]
+        return bool(plain) and all(_numpy_built(f, s_.value, depth + 1) for s_ in plain) and \
+            (e.id not in params or len(plain) == len(vals))
+    return False
+
+
+def _truth_tested(node: ast.AST) -> bool:
+    """The expression's own truth value is taken (if/while/assert/ternary test, `not x`, bool(x), a non-final
+    and/or operand, a comprehension filter) - as opposed to being compared, measured or passed on."""
+    p = parent(node)
+    if isinstance(p, (ast.If, ast.While, ast.IfExp, ast.Assert)) and p.test is node:
+        return True
+    if isinstance(p, ast.UnaryOp) and isinstance(p.op, ast.Not):
+        return True
+    if isinstance(p, ast.comprehension) and any(x is node for x in p.ifs):
+        return True
+    if isinstance(p, ast.Call) and ap(p.func) == "bool" and len(p.args) == 1 and p.args[0] is node:
+        return True
+    if isinstance(p, ast.BoolOp):
+        if p.values[-1] is not node:
+            return True
+        return _truth_tested(p)
+    return False
+
+
+def r10(ctx):
+    """Object form of array-valued adapters: decode() hands out a numpy array, so encode() receives one back; taking
+    the truth value of an array with more than one element raises ValueError, i.e. the object form cannot be
+    re-encoded at all."""
+    repo = ctx.repo
+    ctx.rule("C09.R10", "an adapter whose object-form decode() result is a numpy array never takes the truth value of "
+                        "the value in encode() (len() / is None / .size / .any() are the array-safe tests)")
+    adapter = repo.cls("Adapter", SERMOD)
+    n = 0
+    for k in sorted(repo.subclasses(adapter, strict=True), key=lambda c: c.qual):
+        if not k.module.rel.startswith("hippolyzer/lib/base/"):
+            continue
+        dec, enc = repo.lookup_method(k, "decode"), repo.lookup_method(k, "encode")
+        if dec is None or enc is None or dec.cls == adapter or enc.cls == adapter:
+            continue
+        rets = [r for r in walk(dec.node) if isinstance(r, ast.Return) and r.value is not None]
+        obj_rets = [r for r in rets if not any((ap(e) or "").split(".")[-1] == "pod" and pol for e, pol in facts(r, dec.node))]
+        if not any(_numpy_built(dec, r.value) for r in obj_rets):
+            continue
+        n += 1
+        params = [a.arg for a in enc.node.args.args]
+        if len(params) < 2:
+            continue
+        names = {params[1]}
+        for s_ in stores(enc.node, into_defs=True):
+            if s_.kind == "assign" and isinstance(s_.value, ast.Name) and s_.value.id in names and "." not in s_.path:
+                names.add(s_.path)
+        bad = []
+        for g in class_methods_reachable(repo, enc, depth=1)[:1]:
+            for x in walk(g.node, into_defs=True):
+                if isinstance(x, ast.Name) and x.id in names and isinstance(x.ctx, ast.Load) and _truth_tested(x):
+                    # a re-binding to a non-array (e.g. `val = list(val)`) before the test would make it safe;
+                    # only the untouched parameter (and plain aliases) are considered
+                    if not any(s_.path == x.id and s_.kind == "assign" and not isinstance(s_.value, ast.Name)
+                               for s_ in stores(g.node, into_defs=True)):
+                        bad.append(x)
+        ctx.ob("C09.R10", f"{k.name}.encode: the array-valued object form is never truth-tested", not bad,
+               ctx.w(enc, bad[0]) if bad else enc.where,
+               (f"`{norm(enclosing_stmt(bad[0]))[:80]}` takes the truth value of `{bad[0].id}`" if bad else "") +
+               f": {k.name}.decode returns a numpy array in object form, and bool(ndarray) raises ValueError for more "
+               f"than one element - the decoded value cannot be encoded again")
+    ctx.floor("C09.R10", "adapters with an array-valued object form", n, 1)
+
+
 # ------------------------------------------------------------------------------------------ driver
 
 def run(ctx):
@@ -1733,6 +1849,7 @@ def run(ctx):
     r7(ctx)
     r8(ctx)
     r9(ctx)
+    r10(ctx)
     ctx.assume("byte-for-byte fixed points of the ~200 serializers on generated payloads and the 'printed form "
                "evaluates back' clause are not decided statically")
     ctx.assume("Python semantics encoded: enum.IntFlag(negative) / IntFlag.__or__ are not value preserving on "
